@@ -408,6 +408,36 @@ class Models:
     def m_flist_empty(self, st, obj, bt, args, n, fr): return self.flist_len(st, obj.ref) == 0
     def m_flist_clear(self, st, obj, bt, args, n, fr): self.flist_clear(st, obj)
 
+    def fn_for_each(self, st, rd, args, n, fr):
+        """std::for_each(first, last, f) over a vector: a loop; needs a loop contract registered under 'for_each#k'"""
+        e = self.e
+        b = e.rv(args[0], st, fr); en = e.rv(args[1], st, fr); f = e.rv(args[2], st, fr)
+        if not (isinstance(b, Iter) and isinstance(f, Closure) and b.cty.kind == 'vector'): raise Unsupported('for_each form')
+        k = st.ghost.get('for_each_count', 0); st.ghost['for_each_count'] = k + 1
+        lc = e.specs.loop_contract(fr.qname, 'for_each#%d' % k) if e.specs else None
+        if lc is None: raise Unsupported('std::for_each #%d in %s has no loop contract (at %s)' % (k, fr.qname, e.where(n, fr)))
+        idx_key = 'rangeidx!%s' % n['id']
+        st.env[idx_key] = b.idx
+        ety = b.cty.args[0]
+        vec = ObjLV(b.vref, b.cty)
+
+        class Body:      # adapter: the loop contract executes "the body" through exec_stmt
+            pass
+        call_node = {'kind': 'ForEachBody', 'id': 'fe!' + str(n['id']), '_file': n.get('_file'), '_line': n.get('_line')}
+
+        def run_body(nn, s, frr):
+            i = s.env[idx_key]
+            arg = e.vec_read(s, vec.ref, i, ety) if not e.is_value_type(ety) else ElemLV(vec.ref, i, ety)
+            e.call_closure_values(f, [arg], s, frr, n)
+            return [(s, None)]
+        e.st_ForEachBody = run_body
+        outs = lc.apply(e, n, st, fr, lambda s: s.env[idx_key] < en.idx, lambda s: s.env.__setitem__(idx_key, s.env[idx_key] + 1), call_node, True, None,
+                        {'index_key': idx_key, 'container': vec})
+        normal = [s for (s, o) in outs if o is None]
+        if len(normal) != 1: raise Unsupported('for_each with abrupt exits')
+        st.assign_from(normal[0])
+        return f
+
     def fn_front_inserter(self, st, rd, args, n, fr):
         return Rec('front_inserter', {'dst': self.e.ev(args[0], st, fr)})
 
@@ -757,6 +787,9 @@ class Models:
     def range_for(self, n, st, fr):
         e = self.e
         inner = n['inner']
+        if e.stop_at_loop is not None and e.stop_at_loop == (fr.fn['id'], e.loop_ordinal(n, fr)):
+            e.stopped_states.append(st)
+            return []
         # [init?, range decl, begin decl, end decl, cond, inc, loop var decl, body]
         range_decl = inner[1]; loopvar = inner[6]; body = inner[7]
         rv = range_decl['inner'][0]
